@@ -26,16 +26,21 @@ type PELayout struct {
 	CertTable int // bytes (multiple of 8), 0 = none
 	Big       int // 0 small, 1 >32KiB, 2 >64KiB
 	SecSizes  []int
+	// ChunkAlign > 0 places one boundary between two hashed ranges exactly on a
+	// multiple of 32 KiB of the *hash stream* (io.Copy's chunk size): 1 = the
+	// checksum field, 2 = the certificate-table entry, 3 = end of headers,
+	// 4 = end of the first section in file order.
+	ChunkAlign int
 }
 
 func (l PELayout) Class() string {
 	return fmt.Sprintf("pe32plus=%v nsec=%d order=%s zero=%d/%v slack=%v gaps=%v trailing=%v mod8=%d cert=%v big=%d lfanew=%#x nrva=%d",
-		l.PE32Plus, l.NSec, l.Order, l.ZeroSecs, l.ZeroPtr, l.Slack > 0, l.Gaps, l.Trailing > 0, l.LenMod8, l.CertTable > 0, l.Big, l.Lfanew, l.NumRva)
+		l.PE32Plus, l.NSec, l.Order, l.ZeroSecs, l.ZeroPtr, l.Slack > 0, l.Gaps, l.Trailing > 0, l.LenMod8, l.CertTable > 0, l.Big, l.Lfanew, l.NumRva) + fmt.Sprintf(" chunkalign=%d", l.ChunkAlign)
 }
 
 // ClassCoarse is the tuple counted as "distinct" in evidence.
 func (l PELayout) ClassCoarse() string {
-	return fmt.Sprintf("%v|%d|%s|%v|%v|%v|%d|%v", l.PE32Plus, l.NSec, l.Order, l.ZeroSecs > 0, l.Gaps, l.Trailing > 0, l.LenMod8, l.CertTable > 0)
+	return fmt.Sprintf("%v|%d|%s|%v|%v|%v|%d|%v|%d", l.PE32Plus, l.NSec, l.Order, l.ZeroSecs > 0, l.Gaps, l.Trailing > 0, l.LenMod8, l.CertTable > 0, l.ChunkAlign)
 }
 
 // RandomPELayout draws a layout; i steers the systematic dimensions so that a
@@ -74,6 +79,13 @@ func RandomPELayout(r *rand.Rand, i int) PELayout {
 		l.Big = 1
 	case 1:
 		l.Big = 2
+	}
+	if i%9 == 4 {
+		l.ChunkAlign = 1 + (i/9)%4
+		l.Gaps = false
+		if l.ChunkAlign == 4 && l.NSec-l.ZeroSecs < 1 {
+			l.NSec, l.ZeroSecs = 2, 0
+		}
 	}
 	for s := 0; s < l.NSec; s++ {
 		sz := 1 + r.Intn(600)
@@ -116,10 +128,30 @@ func BuildPE(r *rand.Rand, l PELayout) ([]byte, PELayout) {
 	if l.PE32Plus {
 		optSize = 112 + 8*l.NumRva
 	}
+	const chunk = 32768
+	k := 1 + r.Intn(2)
+	switch l.ChunkAlign {
+	case 1: // checksum field at file offset k*32 KiB (stream offset equal)
+		l.Lfanew = k*chunk - 88
+	case 2: // certificate-table entry at stream offset k*32 KiB: file offset k*32 KiB + 4
+		ddRel := 96 + 32
+		if l.PE32Plus {
+			ddRel = 112 + 32
+		}
+		l.Lfanew = k*chunk + 4 - 24 - ddRel
+	}
 	coff := l.Lfanew + 4
 	opt := coff + 20
 	sectab := opt + optSize
 	hdrEnd := sectab + 40*l.NSec
+	if l.ChunkAlign >= 3 {
+		// end of headers at stream offset k*32 KiB: file offset k*32 KiB + 12
+		want := k*chunk + 12
+		for want < hdrEnd {
+			want += chunk
+		}
+		l.Slack = want - hdrEnd
+	}
 	sizeOfHeaders := hdrEnd + l.Slack
 
 	// file order of sections with data
@@ -151,6 +183,10 @@ func BuildPE(r *rand.Rand, l PELayout) ([]byte, PELayout) {
 		}
 	case "shuffled":
 		r.Shuffle(len(dataOrder), func(a, b int) { dataOrder[a], dataOrder[b] = dataOrder[b], dataOrder[a] })
+	}
+	if l.ChunkAlign == 4 && len(dataOrder) > 0 {
+		// first section (file order) ends on the next chunk boundary of the stream
+		secs[dataOrder[0]].size = chunk
 	}
 	pos := sizeOfHeaders
 	for _, hi := range dataOrder {
